@@ -139,9 +139,10 @@ def run(ctx):
                     why.append("entry parsed as %s" % [(e[3].get('ty'), e[3].get('endian')) for e in rd])
                 pushes = [e for e in b['eff'] if e[0] == 'push']
                 if len(pushes) != 1 or not is_agg(pushes[0][2]) or \
-                        [v for _, v in pushes[0][2][4]] != [rd[0][-1], rd[1][-1]] or len(pushes[0][2][4]) != 2:
+                        sorted(repr(v) for _, v in pushes[0][2][4]) != sorted(repr(x) for x in (rd[0][-1], rd[1][-1])) or \
+                        len(pushes[0][2][4]) != 2 or rd[0][-1] == rd[1][-1]:
                     good = False
-                    why.append("the entry pushed is not exactly (first value read, second value read)")
+                    why.append("the entry pushed does not hold exactly the two values read for it, one per field")
             it = loops[0][2].get('iter')
             if not (is_agg(it) and it[1].startswith('std::ops::Range') and agg_field(it, 'start') == ('int', 0)):
                 good = False
